@@ -163,9 +163,13 @@ REQUESTS = [
 ]
 
 
+BUFFER_NAMES = ['buffer.py', 'conftest.py', '__main__.py', 'setup.py', 'test_buffer.py']
+
+
 def do_request(S, project, root, req, ctx):
     kind, src, pos = req[:3]
-    fn = os.path.join(root, req[3] if len(req) > 3 else 'buffer.py')
+    # the buffer's file name varies with the request (nothing may depend on how the edited file is called)
+    fn = os.path.join(root, req[3] if len(req) > 3 else BUFFER_NAMES[len(src) % len(BUFFER_NAMES)])
 
     def go():
         if kind == 'assist':
